@@ -8,8 +8,15 @@
 2. Every distinct state (prev, act, cur) is instantiated as real magpylib objects under a random concretization kappa
    (generic rigid motion G, lattice unit 1e-9..1e9 m: all actual poses are generic floats), getB/getH/getJ are logged as
    q8 integers with one gross scale per observer and field.
+   Freeze(m) steps decide the second sentence of the property ("pose honoured as local frame placed in the global frame"): the
+   observation at path index m of a configuration whose paths have UNEQUAL lengths (sources of 1..5 steps with changing
+   orientation, sensors of up to 5 steps) equals the observation of the static configuration in which every object stands at its
+   pose number min(m, own length) - premise decided exactly by TLC (PoseAt).  The "Fine*" bases are also concretized by their
+   small-angle image (path increments and the tilt between the sources of a group scaled by 1e-5 .. 1e-7: steps of 1e-3 .. 1e-5
+   degrees), the canonical lattice frame against a generic frame.
 3. spec/TV_Laws re-checks the premise and judges obs2 = g.obs1 (signed permutation; identity for Sensor readings) with
-   the tolerance of the distance class; Reconcretize steps compare the same abstract configuration under two different
+   the tolerance of the distance class, Placement likewise, and for the small-angle images also the CHANGE of the field along
+   the path (difference to step 1, two-limb values, tolerance 1e-9 of the gross scale: a frozen path is rejected); Reconcretize steps compare the same abstract configuration under two different
    generic G (law KappaInvariance: generic global rotations).
 """
 import json
